@@ -17,7 +17,9 @@ EXTENDS MCSync
 
 CONSTANTS BaseExists,    \* TRUE: the task exists (empty) in the common base
           WithRound2,    \* TRUE: a causally later change follows
-          OracleLatest   \* TRUE: the documented rule; FALSE: "earliest wins" (anti-vacuity)
+          OracleLatest,  \* TRUE: the documented rule; FALSE: "earliest wins" (anti-vacuity)
+          SharedVal      \* TRUE: besides its own value every replica may also write the value
+                         \* "s", so that concurrent updates to the SAME value occur (EQ1)
 
 u0 == CHOOSE u \in Tasks : TRUE
 others == Tasks \ {u0}
@@ -25,7 +27,8 @@ others == Tasks \ {u0}
 (* operation families a replica may have performed concurrently: own value, *)
 (* any property, any timestamp                                             *)
 Fam(r) ==
-  LET upd == {U(u0, p, ValOf[r], t, NoVal) : p \in Props, t \in Times}
+  LET vs  == IF SharedVal THEN {ValOf[r], "s"} ELSE {ValOf[r]}
+      upd == {U(u0, p, w, t, NoVal) : p \in Props, t \in Times, w \in vs}
       oth == {U(u, p, ValOf[r], t, NoVal) : u \in others, p \in Props, t \in Times}
   IN IF BaseExists
      THEN {<<>>} \cup {<<x>> : x \in upd} \cup {<<D(u0, EmptyMap)>>}
